@@ -46,7 +46,7 @@ const COUNTERPARTS: [&str; 22] = [
 ];
 const FIELD_NAMES: [&str; 10] = ["id", "name", "value", "count", "flag", "data", "extra", "score", "left", "right"];
 const OTHER_NAMES: [&str; 8] = ["ident", "title", "amount", "total", "enabled", "payload", "misc", "points"];
-const FIELD_TYPES: [&str; 9] = ["i32", "String", "u8", "f32", "bool", "Vec<u8>", "Option<String>", "i64", "u16"];
+const FIELD_TYPES: [&str; 16] = ["i32", "String", "u8", "f32", "bool", "Vec<u8>", "Option<String>", "i64", "u16", "&'static str", "(i32, String)", "[u8; 4]", "Box<dyn Fn(i32) -> i32>", "std::collections::BTreeMap<String, Vec<Option<u8>>>", "fn(&str) -> usize", "crate::inner::Child"];
 const ERR_TYPES: [&str; 3] = ["String", "anyhow::Error", "MyErr"];
 const VARIANT_NAMES: [&str; 8] = ["Ok", "NotFound", "Pending", "Done", "Left", "Right", "Empty", "Full"];
 
@@ -211,6 +211,10 @@ fn generics(rng: &mut Rng, item: &mut Item) {
             item.generics = "<'a, T, const N: usize>".into();
             item.where_clause = "where T: 'a".into();
         },
+        4 if rng.chance(1, 2) => {
+            item.generics = "<'a: 'b, 'b, T: ?Sized + 'a, U = i32>".into();
+            item.where_clause = "where for<'x> &'x T: PartialEq, U: Iterator<Item = &'b str>".into();
+        },
         _ => {},
     }
 }
@@ -307,7 +311,13 @@ pub fn gen_struct(rng: &mut Rng, class: Class) -> Item {
     let mut bodies: Vec<String> = Vec::new();
     let mut fallible_any = false;
     let mut open_repeats: Vec<String> = Vec::new();
-    for cp in &cps {
+    let cps_all = cps.clone();
+    // instructions can only be dedicated to counterparts that are paths (not nameless tuples)
+    let mut cps: Vec<&str> = cps_all.iter().copied().filter(|c| !c.starts_with('(')).collect();
+    if cps.is_empty() {
+        cps.push(cps_all[0]);
+    }
+    for cp in &cps_all {
         let bundle = *rng.pick(&BUNDLES);
         let hint = match (item.shape, rng.below(6)) {
             (Shape::Named, 0) => " as ()",
@@ -1040,7 +1050,62 @@ pub fn mutate_corpus_item(rng: &mut Rng, base: &Item) -> Item {
     item
 }
 
+const FOREIGN_ATTRS: [&str; 12] = [
+    "#[doc = \"documented\"]", "/// a doc comment", "#[serde(rename = \"x\", default)]", "#[allow(dead_code)]", "#[cfg_attr(test, derive(Debug))]", "#[must_use]", "#[repr(C)]", "#[deprecated(note = \"old\")]", "#[validate(length(min = 1))]", "#[sqlx(rename_all = \"snake_case\")]", "#[non_exhaustive]",
+    "#[clap(long, short = 'x')]",
+];
+
+/// Things a real item carries that o2o must ignore or pass through: foreign attributes and
+/// doc comments at every level, visibility, raw identifiers, explicit discriminants.
+fn decorate(rng: &mut Rng, item: &mut Item) {
+    if item.raw.is_some() {
+        return;
+    }
+    if rng.chance(1, 3) {
+        let n = rng.range(1, 3);
+        for _ in 0..n {
+            let pos = rng.below(item.type_attrs.len() as u64 + 1) as usize;
+            item.type_attrs.insert(pos, rng.pick(&FOREIGN_ATTRS).to_string());
+        }
+    }
+    if rng.chance(1, 20) {
+        // name-value form of a known instruction name: its own parse path (and a syn2-only error)
+        let pos = rng.below(item.type_attrs.len() as u64 + 1) as usize;
+        item.type_attrs.insert(pos, format!("#[{} = \"Value\"]", rng.pick(&["map", "ghosts", "where_clause", "o2o"])));
+    }
+    let is_struct_named = !item.is_enum && item.shape == Shape::Named;
+    for m in item.members.iter_mut() {
+        if rng.chance(1, 5) {
+            let pos = rng.below(m.attrs.len() as u64 + 1) as usize;
+            m.attrs.insert(pos, rng.pick(&FOREIGN_ATTRS).to_string());
+        }
+        if !item.is_enum && rng.chance(1, 4) && !m.decl.starts_with("pub") {
+            m.decl = format!("{} {}", rng.pick(&["pub", "pub(crate)", "pub(super)"]), m.decl);
+        }
+        if is_struct_named && rng.chance(1, 25) {
+            // raw identifier as a field name
+            let d = m.decl.clone();
+            if let Some((name, rest)) = d.split_once(':') {
+                if name.trim().chars().all(|c| c.is_alphanumeric() || c == '_') {
+                    m.decl = format!("r#{}:{}", rng.pick(&["type", "match", "ref", "fn"]), rest);
+                }
+            }
+        }
+        if item.is_enum && rng.chance(1, 12) && !m.decl.contains('(') && !m.decl.contains('{') && !m.decl.contains('=') {
+            m.decl = format!("{} = {}", m.decl, rng.below(200));
+        }
+    }
+}
+
 pub fn generate(rng: &mut Rng, corpus: &Corpus, class: Class) -> Item {
+    let mut item = generate_undecorated(rng, corpus, class);
+    if rng.chance(1, 3) {
+        decorate(rng, &mut item);
+    }
+    item
+}
+
+fn generate_undecorated(rng: &mut Rng, corpus: &Corpus, class: Class) -> Item {
     match class {
         Class::W7CorpusMutant => {
             if corpus.items.is_empty() {
